@@ -133,6 +133,28 @@ def origins_near(patterns):
     return out
 
 
+PATTERN_POOL = ["http://good.com:80", "https://good.com:443", "https://*.example.com:443", "*://localhost:*", "http://10.0.0.*:8080", "https://app.example:443",
+                "http://a.example:80", "http://z.example:8080"]
+
+
+def origins_adjacent(patterns):
+    """constructed from the configured allow-list: for every entry an origin that matches it, and origins one edit away from that
+    (port extended / truncated, host extended to the left / right, other scheme) - the whole origin has to match, never a prefix or suffix"""
+    out = []
+    for p in patterns:
+        if p == "*":
+            continue
+        scheme, rest = p.split("://", 1)
+        scheme = "http" if scheme == "*" else scheme
+        host, port = rest.rsplit(":", 1)
+        host = host.replace("*", "q7")
+        port = "8081" if port == "*" else port
+        base = "%s://%s:%s" % (scheme, host, port)
+        out += [base, base + "0", "%s://%s:%s1" % (scheme, host, port), "%s://%s:%s" % (scheme, host, port[:-1] or "1"), "%s://%s.evil.org:%s" % (scheme, host, port),
+                "%s://evil%s:%s" % (scheme, host, port), "%s://%s:%s" % ("https" if scheme == "http" else "http", host, port), "%s://%s" % (scheme, host)]
+    return out or ["http://anything.example:80"]
+
+
 def server_strategy():
     from hypothesis import strategies as st
     MUT = ["none", "none", "no-host", "dup-host", "no-upgrade", "upgrade-other", "no-connection", "connection-close", "no-key", "dup-key", "key-short", "key-long",
@@ -142,7 +164,7 @@ def server_strategy():
     @st.composite
     def case(draw):
         versions = draw(st.sampled_from([[8, 13], [13], [8]]))
-        pats = draw(st.sampled_from(PATTERN_SETS))
+        pats = draw(st.one_of(st.sampled_from(PATTERN_SETS), st.lists(st.sampled_from(PATTERN_POOL), min_size=2, max_size=4, unique=True)))
         cfg = {"versions": versions, "allowedOrigins": pats, "allowNullOrigin": draw(st.booleans()), "maxConnections": draw(st.sampled_from([0, 0, 1, 3])),
                "externalPort": draw(st.sampled_from([None, None, 9000, 443])), "webStatus": draw(st.booleans()), "server_protocols": draw(st.sampled_from([[], ["wamp.2.json"], ["b", "a"]])),
                "deflate": draw(st.booleans())}
@@ -151,7 +173,7 @@ def server_strategy():
                "upgrade": draw(st.sampled_from(["websocket", "WebSocket", "WEBSOCKET", "h2c, websocket", "websocket, foo"])),
                "connection": draw(st.sampled_from(["Upgrade", "upgrade", "keep-alive, Upgrade", "Upgrade, keep-alive"])),
                "key": base64.b64encode(draw(st.binary(min_size=16, max_size=16))).decode(), "version": draw(st.sampled_from(versions)),
-               "origin": draw(st.one_of(st.none(), st.sampled_from(origins_near(pats)))), "protocols": draw(st.sampled_from([None, ["wamp.2.json"], ["a", "b"], ["x", "wamp.2.json", "a"]])),
+               "origin": draw(st.one_of(st.none(), st.sampled_from(origins_near(pats)), st.sampled_from(origins_adjacent(pats)))), "protocols": draw(st.sampled_from([None, ["wamp.2.json"], ["a", "b"], ["x", "wamp.2.json", "a"]])),
                "extensions": draw(st.sampled_from([None, "permessage-deflate", "permessage-deflate; client_max_window_bits", "x-unknown-ext; a=1", "x-unknown, permessage-deflate"])),
                "extra": draw(st.lists(st.sampled_from(["User-Agent: test/1.0", "Cookie: a=b; c=d", "X-Forwarded-For: 1.2.3.4", "Accept-Encoding: gzip", "X-Weird:", "X-Utf8: caf\u00e9"]), max_size=3, unique=True)),
                "case_style": draw(st.sampled_from(["canon", "lower", "upper"])), "shuffle": draw(st.integers(0, 1000))}
